@@ -9,6 +9,7 @@ import StyluaModel.Lemmas.SortReq
 import StyluaModel.Lemmas.Paren
 import StyluaModel.Lemmas.Trivia
 import StyluaModel.Lemmas.TriviaIdem
+import StyluaModel.Lemmas.EndToken
 import StyluaModel.Lemmas.ParenIdem
 import StyluaModel.Model.Table
 
@@ -84,6 +85,12 @@ of a second pass unchanged -/
 theorem C06_trivia_trailing (eol : List Char) (t : List Trivia.Triv) (h : TriviaIdem.FixTexts eol t) :
     Trivia.load eol .trailing (TriviaIdem.relex (Trivia.load eol .trailing t)) = Trivia.load eol .trailing t :=
   TriviaIdem.load_trailing_idem eol t h
+
+/-- **the blank-line removal in front of a closing token is stable**: applied to its own result, the scan of
+format_end_token removes nothing more (whatever the state of its `stop_removal` flag) -/
+theorem C06_end_token_scan (stop : Bool) (l : List Trivia.Out) :
+    EndToken.scan stop (EndToken.scan stop l) = EndToken.scan stop l :=
+  EndTokenLemmas.scan_idem l stop
 
 example : TriviaIdem.FixTexts ['\n'] [.ws true, .ws true, .ws true, .comment .line ['c'], .ws true, .ws true,
       .comment (.block 0) ['b'], .ws false] ∧
